@@ -7,6 +7,7 @@ import (
 	"io"
 	"net"
 	"os"
+	"regexp"
 	"runtime"
 	"sort"
 	"strconv"
@@ -173,6 +174,71 @@ func stackDumpAfter() func() {
 		}
 	}()
 	return func() { close(done) }
+}
+
+// closeDeadlockSig: zstdByteStreamChunkReader.Close drains the stream with its
+// own Recv() loop while the forwarding goroutine started by Get is still inside
+// Recv(); whichever of the two receives the end of the stream, the other one
+// may wait forever, and Close then never returns from wg.Wait().
+const closeDeadlockSig = "casBlobAccess.Get(zstd):Close-deadlocks-with-forwarding-goroutine"
+
+var (
+	stuckCloseRe = regexp.MustCompile(`(?s)^goroutine \d+ \[sync\.WaitGroup\.Wait[^\]]*\]:.*grpcclients\.\(\*zstdByteStreamChunkReader\)\.Close`)
+	stuckRecvRe  = regexp.MustCompile(`(?s)^goroutine \d+ \[(chan receive|select)[^\]]*\]:.*bytestream\.\(\*byteStreamReadClient\)\.Recv.*grpcclients\.\(\*casBlobAccess\)\.Get\.func1`)
+)
+
+// stuckInClose reports (from a goroutine dump) whether a Close() is parked in
+// wg.Wait() while a forwarding goroutine is parked in Recv().
+func stuckInClose() (string, bool) {
+	buf := make([]byte, 1<<22)
+	dump := string(buf[:runtime.Stack(buf, true)])
+	var hit []string
+	closeParked, recvParked := false, false
+	for _, g := range strings.Split(dump, "\n\n") {
+		switch {
+		case stuckCloseRe.MatchString(g):
+			closeParked = true
+			hit = append(hit, g)
+		case stuckRecvRe.MatchString(g):
+			recvParked = true
+			hit = append(hit, g)
+		}
+	}
+	return strings.Join(hit, "\n\n"), closeParked && recvParked
+}
+
+// guarded runs one client operation. The verdict is state based: the clock
+// only decides when to look. If the operation has not returned after a while
+// and two dumps (2 s apart) both show Close() parked in wg.Wait() and the
+// forwarding goroutine parked in Recv(), nothing can wake them any more (the
+// context is already cancelled): a violation, and the case is abandoned (its
+// deferred drain closes the connection, which releases the goroutines).
+func guarded(c *run.Case, w *run.Worker, what string, f func()) (stalled bool) {
+	done := make(chan struct{})
+	go func() {
+		defer close(done)
+		f()
+	}()
+	for {
+		select {
+		case <-done:
+			return false
+		case <-time.After(20 * time.Second):
+		}
+		if _, a := stuckInClose(); !a {
+			continue
+		}
+		select {
+		case <-done:
+			return false
+		case <-time.After(2 * time.Second):
+		}
+		if d, b := stuckInClose(); b {
+			w.Count("close_deadlocks_observed", 1)
+			c.Violation(closeDeadlockSig, "%s never returned: Close() waits for the forwarding goroutine, which waits in Recv() for a stream end that the drain loop of Close() has already consumed\n%s", what, d)
+			return true
+		}
+	}
 }
 
 const lastChunkSig = "casBlobAccess.Get(zstd):last-chunk-dropped-when-decoder-returns-data-with-EOF"
@@ -372,47 +438,51 @@ func caseBackToBack(c *run.Case, w *run.Worker) {
 					side.be.mu.Unlock()
 				}
 				size := int64(len(o.data))
-				switch kind {
-				case 1:
-					max := 1 << 20
-					if rr.Chance(1, 8) && size > 0 {
-						max = int(size) - 1
-						causes++
+				if guarded(c, w, "a Get on "+side.name, func() {
+					switch kind {
+					case 1:
+						max := 1 << 20
+						if rr.Chance(1, 8) && size > 0 {
+							max = int(size) - 1
+							causes++
+						}
+						opDesc = fmt.Sprintf("Get(%v).ToByteSlice(%d) present=%v backendErr=%v", o, max, present, injected)
+						sig = "Get(" + mode + ").ToByteSlice"
+						data, err := side.ba.Get(ctx, o.d).ToByteSlice(max)
+						res[si] = opResult{code: codeOf(err), data: data, err: err}
+					case 2:
+						off := pickOffset(rr, size)
+						if off < 0 || off > size {
+							causes++
+						}
+						cs := rr.Pick(1, 10, 1000, 65536)
+						if size > 3000 && cs < 1000 {
+							cs = 1000
+						}
+						opDesc = fmt.Sprintf("Get(%v).ToChunkReader(%d,%d) present=%v backendErr=%v", o, off, cs, present, injected)
+						sig = "Get(" + mode + ").ToChunkReader"
+						cr := side.ba.Get(ctx, o.d).ToChunkReader(off, cs)
+						data, err := readAll(cr, -1)
+						cr.Close()
+						if err != nil {
+							data = nil // partial data before an error is not part of the contract
+						}
+						res[si] = opResult{code: codeOf(err), data: data, err: err}
+					case 3: // read a little, then walk away
+						opDesc = fmt.Sprintf("Get(%v) partial read then Close; present=%v", o, present)
+						sig = "Get(" + mode + ").partial"
+						cr := side.ba.Get(ctx, o.d).ToChunkReader(0, 4096)
+						readAll(cr, rr.Range(0, 2))
+						cr.Close()
+						res[si] = opResult{}
+					default:
+						opDesc = fmt.Sprintf("Get(%v).Discard()", o)
+						sig = "Get(" + mode + ").Discard"
+						side.ba.Get(ctx, o.d).Discard()
+						res[si] = opResult{}
 					}
-					opDesc = fmt.Sprintf("Get(%v).ToByteSlice(%d) present=%v backendErr=%v", o, max, present, injected)
-					sig = "Get(" + mode + ").ToByteSlice"
-					data, err := side.ba.Get(ctx, o.d).ToByteSlice(max)
-					res[si] = opResult{code: codeOf(err), data: data, err: err}
-				case 2:
-					off := pickOffset(rr, size)
-					if off < 0 || off > size {
-						causes++
-					}
-					cs := rr.Pick(1, 10, 1000, 65536)
-					if size > 3000 && cs < 1000 {
-						cs = 1000
-					}
-					opDesc = fmt.Sprintf("Get(%v).ToChunkReader(%d,%d) present=%v backendErr=%v", o, off, cs, present, injected)
-					sig = "Get(" + mode + ").ToChunkReader"
-					cr := side.ba.Get(ctx, o.d).ToChunkReader(off, cs)
-					data, err := readAll(cr, -1)
-					cr.Close()
-					if err != nil {
-						data = nil // partial data before an error is not part of the contract
-					}
-					res[si] = opResult{code: codeOf(err), data: data, err: err}
-				case 3: // read a little, then walk away
-					opDesc = fmt.Sprintf("Get(%v) partial read then Close; present=%v", o, present)
-					sig = "Get(" + mode + ").partial"
-					cr := side.ba.Get(ctx, o.d).ToChunkReader(0, 4096)
-					readAll(cr, rr.Range(0, 2))
-					cr.Close()
-					res[si] = opResult{}
-				default:
-					opDesc = fmt.Sprintf("Get(%v).Discard()", o)
-					sig = "Get(" + mode + ").Discard"
-					side.ba.Get(ctx, o.d).Discard()
-					res[si] = opResult{}
+				}) {
+					return
 				}
 				if si == 1 {
 					w.Count("b2b_get", 1)
@@ -644,11 +714,15 @@ func caseConcurrent(c *run.Case, w *run.Worker) {
 					continue
 				}
 				b, _ := model.NewTrackedCASBuffer(o.d, model.SourceSpec{Data: o.data, Chunks: chunkLens(gr, len(o.data), true)}, buffer.UserProvided)
-				if err := client.Put(ctx, o.d, b); err != nil {
+				err := client.Put(ctx, o.d, b)
+				if err != nil {
 					c.Violation("casBlobAccess.Put(concurrent):valid-upload-rejected", "goroutine %d: Put(%v) -> %v", g, o, err)
 					continue
 				}
-				data, err := client.Get(ctx, o.d).ToByteSlice(1 << 20)
+				var data []byte
+				if guarded(c, w, fmt.Sprintf("goroutine %d: Get(%v).ToByteSlice", g, o), func() { data, err = client.Get(ctx, o.d).ToByteSlice(1 << 20) }) {
+					return
+				}
 				if err != nil && status.Code(err) == codes.Internal && strings.Contains(clientPool.name, "async") && strings.Contains(err.Error(), "bytes in size, while") {
 					c.Violation(lastChunkSig, "goroutine %d: Get(%v) after a successful Put (client pool %s) -> %v", g, o, clientPool.name, err)
 				} else if err != nil || !bytes.Equal(data, o.data) {
